@@ -4,7 +4,7 @@
 //!
 //! Protocol: parent writes one JSON case per line to the child's stdin; the child answers
 //! each with one JSON outcome line.  The child has an internal watchdog thread which, when
-//! the current case makes no progress for `CASE_TIMEOUT_MS`, emits the outcome of the case
+//! the current case makes no progress for `CASE_TIMEOUT_MS` of CPU time (or a minute of wall-clock time), emits the outcome of the case
 //! with symptom "hang" for the API that is executing and exits.  If the child dies without
 //! answering (abort / OOM under RLIMIT_AS), the parent re-runs that case in a fresh child in
 //! `--trace-api` mode to learn which API call was executing.
@@ -18,7 +18,8 @@ use std::sync::Mutex;
 use std::time::Duration;
 
 pub const CASE_TIMEOUT_MS: u64 = 4000;
-pub const PARENT_TIMEOUT_MS: u64 = 30000;
+pub const WALL_TIMEOUT_MS: u64 = 60000;
+pub const PARENT_TIMEOUT_MS: u64 = 180000;
 pub const MEM_LIMIT: u64 = 6 << 30;
 
 // ---------------------------------------------------------------- worker side
@@ -68,18 +69,27 @@ pub fn worker_main(stage: &str, seed: u64, trace_api: bool) {
     // watchdog
     {
         std::thread::spawn(move || {
+            // time is measured as CPU time of this process (a call that spins burns it; a machine that is busy with
+            // other work does not), with a wall-clock ceiling for a call that sleeps for ever
+            fn cpu_ms() -> u64 {
+                let mut ru: libc::rusage = unsafe { std::mem::zeroed() };
+                unsafe { libc::getrusage(libc::RUSAGE_SELF, &mut ru); }
+                (ru.ru_utime.tv_sec as u64 + ru.ru_stime.tv_sec as u64) * 1000 + (ru.ru_utime.tv_usec as u64 + ru.ru_stime.tv_usec as u64) / 1000
+            }
             let mut last = PROGRESS.load(Ordering::Relaxed);
-            let mut idle = 0u64;
+            let mut cpu_mark = cpu_ms();
+            let mut wall_mark = std::time::Instant::now();
             loop {
                 std::thread::sleep(Duration::from_millis(100));
                 let cur = PROGRESS.load(Ordering::Relaxed);
                 let busy = !CUR_CASE.lock().map(|g| g.is_empty()).unwrap_or(true);
                 if cur != last || !busy {
                     last = cur;
-                    idle = 0;
+                    cpu_mark = cpu_ms();
+                    wall_mark = std::time::Instant::now();
                 } else {
-                    idle += 100;
-                    if idle >= CASE_TIMEOUT_MS {
+                    let idle = cpu_ms().saturating_sub(cpu_mark);
+                    if idle >= CASE_TIMEOUT_MS || wall_mark.elapsed().as_millis() as u64 >= WALL_TIMEOUT_MS {
                         let api = CUR_API.lock().map(|g| g.clone()).unwrap_or_default();
                         let o = json!({"fatal": "hang", "api": api});
                         let out = std::io::stdout();
